@@ -2,6 +2,8 @@ import RallyModel.Samples
 import RallyProofs.Samples
 import RallyProofs.SamplesFlush
 import RallyProofs.SamplesJoin
+import RallyModel.ShipJoin
+import RallyProofs.ShipJoin
 /-!
 # C07 — every request sample reaches the metrics store exactly once
 
@@ -191,6 +193,45 @@ theorem last_join_point_delivers_everything (c : DCfg) (hfac : c.cfg.factor = 1)
   rw [c7] at hp
   exact hp
 
+/-! ### the worker's side of a step end: wake-up handler and `drive()` against the load generator thread (`RallyModel/ShipJoin.lean`) -/
+
+/-- Every interleaving of the wake-up handler's and `drive()`'s atomic steps with the load generator thread's (any number of samples, any
+number of wake-ups, the thread finishing at any moment): what has been shipped followed by what is queued is exactly what the thread has
+added, in order — nothing twice, nothing dropped with the sampler. -/
+theorem shipped_and_queued_is_added (todo : List Nat) (evs : List ShipJoin.Ev) (s : ShipJoin.St)
+    (h : ShipJoin.run true evs (ShipJoin.init todo) = some s) :
+    ShipJoin.shipped s.sent ++ s.q = s.added ∧ s.lost = [] ∧ s.added ++ s.todo = todo := by
+  have hi := ShipJoin.inv_run (ShipJoin.inv_init todo) h
+  exact ⟨hi.cons, hi.lost, by simpa [ShipJoin.init] using ShipJoin.added_todo_run h⟩
+
+/-- … and once `JoinPointReached` is among the messages sent, the thread has finished, the queue is empty, and the `UpdateSamples`
+messages sent BEFORE it carry exactly the samples the thread added, each once (ids of the script are distinct); it is the last message. -/
+theorem join_point_only_after_every_sample_shipped (todo : List Nat) (hnd : todo.Nodup) (evs : List ShipJoin.Ev) (s : ShipJoin.St)
+    (h : ShipJoin.run true evs (ShipJoin.init todo) = some s) (hj : ShipJoin.Msg.joinPoint ∈ s.sent) :
+    s.finished = true ∧ s.q = [] ∧ ShipJoin.shippedBefore s.sent = s.added ∧ (ShipJoin.shippedBefore s.sent).Nodup ∧
+    s.sent.getLast? = some ShipJoin.Msg.joinPoint := by
+  have hi := ShipJoin.inv_run (ShipJoin.inv_init todo) h
+  have hpc : s.pc = .joined := by
+    by_cases hp : s.pc = .joined
+    · exact hp
+    · exact absurd hj (hi.nj hp)
+  have hq := hi.qe (Or.inr (Or.inr hpc))
+  have hc := hi.cons
+  rw [hq, List.append_nil] at hc
+  have hat : s.added ++ s.todo = todo := by simpa [ShipJoin.init] using ShipJoin.added_todo_run h
+  have hn : s.added.Nodup := by
+    rw [← hat] at hnd
+    exact (List.nodup_append.mp hnd).1
+  refine ⟨hi.fin (by simp [hpc]) (by simp [hpc]), hq, by rw [hi.sb, hc], by rw [hi.sb, hc]; exact hn, hi.last hpc⟩
+
+/-- The rule that matters, kept visible: a `drive()` that relies on the handler's drain (no drain at the join point) loses the sample the
+thread adds between the handler's drain and its `done()` check. -/
+theorem join_point_without_drain_loses_samples :
+    ∃ evs s, ShipJoin.run false evs (ShipJoin.init [1, 2]) = some s ∧ ShipJoin.Msg.joinPoint ∈ s.sent ∧ s.added = [1, 2] ∧
+      ShipJoin.shippedBefore s.sent = [1] ∧ s.lost = [2] :=
+  ⟨[.add, .wakeDrain, .add, .finish, .checkDone, .driveWait, .driveDrain, .driveDrop, .sendJoin], _, rfl, by decide, rfl, rfl, rfl⟩
+
+
 /-! ### non-vacuity (tests, labelled as tests) -/
 
 example : (run ⟨2, 2⟩ init [.request 0 1, .request 0 2, .request 0 3, .request 1 4, .ship 0, .deliverU 0, .ship 1, .deliverU 1,
@@ -214,5 +255,16 @@ example : ∃ d, drun ⟨⟨8, 1⟩, 2, 1⟩ dinit [.pipe (.request 0 1), .pipe 
     d.s.samplers = [] ∧ d.s.w2d = [] ∧ d.stepNo + 1 = 1 ∧ d.completed + 1 = 2 ∧ d.s.dstore = [1] ∧ d.s.raw = [] := by decide
 
 example : dstep ⟨⟨8, 1⟩, 1, 1⟩ dinit (.pipe .handover) = none := by decide
+
+-- the same schedule with the join-point drain: the sample added in the window is shipped by drive() before JoinPointReached
+example : (ShipJoin.run true [.add, .wakeDrain, .add, .finish, .checkDone, .driveWait, .driveDrain, .driveDrop, .sendJoin] (ShipJoin.init [1, 2])).map
+    (fun s => (s.sent, s.lost, s.finished)) = some ([.update [1], .update [2], .joinPoint], [], true) := by decide
+
+-- several wake-ups, the thread finishing early (sample 3 is never added)
+example : (ShipJoin.run true [.wakeDrain, .checkDone, .add, .add, .wakeDrain, .finish, .checkDone, .driveWait, .driveDrain, .driveDrop, .sendJoin]
+    (ShipJoin.init [1, 2, 3])).map (fun s => (s.sent, s.added, s.todo)) = some ([.update [1, 2], .joinPoint], [1, 2], [3]) := by decide
+
+-- drive() is not entered while the thread runs
+example : ShipJoin.run true [.wakeDrain, .checkDone, .driveWait] (ShipJoin.init [1]) = none := by decide
 
 end C07
